@@ -141,14 +141,19 @@ pub fn integrity(l: &RunLog) -> Vec<Finding> {
                     // ... or the re-cut version never reached the wire: an oversized first transmission was
                     // delivered, but the first ACK covering it reached the writer a full minimum RTO (200 ms) later
                     if !recut_of_delivered {
-                        let mut max_len = 0usize;
-                        let mut seen: std::collections::BTreeSet<u16> = Default::default();
+                        // (size of the latest transmission of each sequence number so far: a dropped probe is re-cut)
+                        let mut seen: std::collections::BTreeMap<u16, usize> = Default::default();
                         for w in l.wire.iter().filter(|w| w.from_a == writer_is_a && w.ptype == 0 && !w.injected && !w.rejected) {
-                            if !seen.insert(w.seq) {
+                            if seen.contains_key(&w.seq) {
+                                seen.insert(w.seq, w.payload.len());
                                 continue;
                             }
-                            let probe_like = max_len > 0 && w.payload.len() > max_len;
-                            max_len = max_len.max(w.payload.len());
+                            // probe-like: larger than every payload size the peer had acknowledged (by an ACK
+                            // delivered to the writer) when it was sent
+                            let acks_before: Vec<u16> = l.wire.iter().filter(|a| a.from_a != writer_is_a && !a.injected && a.parse_ok).filter(|a| l.delivered.iter().any(|d| d.1 == a.k && d.0 <= w.t_us)).map(|a| a.ack).collect();
+                            let proven = seen.iter().filter(|(s, _)| acks_before.iter().any(|a| (a.wrapping_sub(**s) as i16) >= 0)).map(|(_, len)| *len).max().unwrap_or(0);
+                            let probe_like = proven > 0 && w.payload.len() > proven;
+                            seen.insert(w.seq, w.payload.len());
                             if probe_like && l.delivered.iter().any(|d| d.1 == w.k) {
                                 let t_ack = l
                                     .wire
